@@ -85,6 +85,7 @@ type Summary struct {
 	ViolCount   uint64              // all violations (case x sub-configuration)
 	ViolCases   map[string][]uint64 // scope name -> all violating case indices
 	Extra       map[string]any
+	PostViol    []Violation // violations found by Check.Post (reported as they are)
 	Internal    []string // internal errors (exit 2)
 	Caps        []string
 }
